@@ -1,6 +1,6 @@
 """C17 — entry points for untrusted data never panic / abort / hang: site inventory with guards, recursion inventory, loop exits, statics."""
-from .. import world as W, mir as M
-from . import panic_common as PC
+from .. import dex as D, world as W, mir as M
+from . import util as U, panic_common as PC
 
 LEVEL = "other"
 EXPLANATION = (
@@ -73,6 +73,35 @@ def run(ctx):
                               f"{f} joined the recursive component of {anchors[0]} from outside {module}")
     ctx.count("call_graph_nodes", len(edges))
     ctx.floor("call graph nodes", len(edges), 9000)
+
+    ctx.rule("C17.caches", "functions that fill a cache behind a Mutex: no path that returns an error has written to the cache before (a rejected value "
+                           "must not change what later calls return); every function of the crates that locks a Mutex is covered")
+    lockers = []
+    for fn in w.all_fns():
+        if "body" not in fn or "::tests" in fn["path"] or "test_utils" in fn["path"]:
+            continue
+        if any("sync::poison::mutex::Mutex::<T>::lock" in M.callee_name(c) or M.callee_name(c).endswith("Mutex::<T>::lock") for body in M.all_bodies(fn) for _, c in M.calls(body)):
+            lockers.append(fn)
+    ctx.floor("functions locking a Mutex", len(lockers), 1)
+    MUT = ("insert", "or_insert", "or_insert_with", "or_default", "remove", "clear", "push", "extend", "retain", "append", "pop", "truncate", "swap_remove", "take", "replace")
+    dexc = D.Dex(w.lookup, adt_discr=w.adt_discr, unroll=1, inline=lambda n: "{closure" in n,
+                 effects=lambda n: n.rsplit("::", 1)[-1] in MUT and ("btree" in n or "hash" in n or "vec::" in n or "Entry" in n or "indexmap" in n))
+    for fn in lockers:
+        nargs = fn["body"]["argc"]
+        try:
+            paths = dexc.paths(fn, [D.sym(f"a{i}") for i in range(nargs)])
+        except D.Unrecognised as e:
+            ctx.unrecognised("C17.caches", f"C17.caches:{fn['path']}", w.where(fn), str(e))
+            continue
+        errp = [p for p in paths if p.kind == "ret" and U.is_err(p.ret)]
+        okp = [p for p in paths if p.kind == "ret" and not U.is_err(p.ret)]
+        dirty = [p for p in errp if p.effects]
+        fills = any(p.effects for p in okp)
+        ctx.check(not dirty and fills and bool(errp), "C17.caches", f"C17.caches:{fn['path']}:error-paths-clean", w.where(fn),
+                  ok_msg=f"{len(errp)} error paths without cache writes, {sum(1 for p in okp if p.effects)} filling success paths",
+                  bad_msg=(f"an error path of {fn['path'].rsplit('::', 1)[-1]} writes to the cache first ({[e[0].rsplit('::', 2)[-2:] for e in dirty[0].effects][:2]}): "
+                           f"the first call reports the malformed value, later calls answer from the cache as if the field were absent") if dirty else
+                          "the function has no error path / never fills the cache (shape not recognised)")
 
     ctx.rule("C17.loops", "every natural loop of every body has an exit edge (no `loop {}` without break/return)")
     nloops = 0
